@@ -17,6 +17,13 @@ func main() {
 		die(fmt.Errorf("usage: nvextract <what> <repo> <gen-dir>"))
 	}
 	what, repo, out := os.Args[1], os.Args[2], os.Args[3]
+	// targets may change the working directory (the source importer resolves packages relative to it)
+	if abs, err := filepath.Abs(out); err == nil {
+		out = abs
+	}
+	if abs, err := filepath.Abs(repo); err == nil {
+		repo = abs
+	}
 	write := func(name, text string) {
 		p := filepath.Join(out, name)
 		old, _ := os.ReadFile(p)
